@@ -177,6 +177,12 @@ C14_SuccessIsFixpoint ==
      /\ RepairFn(disk', vols').disk = disk'
 C14_FailureKeepsOrRestores ==
   (IsRepair /\ last'.err # "") => \A f \in NameSet : disk'[f] = disk[f] \/ disk'[f] = Prot[f]
+\* "never increases the damage", as a statement about the set as a whole: a Repair that gives up for lack of
+\* recovery blocks leaves every slice that occurred somewhere in the protected files occurring somewhere
+\* (rewriting one file with its original must not wipe the only copy of another file's slices stored under
+\* that name), so that the attempt after a recovery file returns starts from no less than this one did
+C14_FailureLosesNoSlice ==
+  (IsRepair /\ last'.err = "notenough") => Scan!Occurring(disk) \subseteq Scan!Occurring(disk')
 C14_VerifyPure == IsVerify => disk' = disk /\ vols' = vols
 
 \* C16: every slice that survives is credited (so Repair needs recovery blocks only for the rest)
